@@ -36,4 +36,23 @@ CLAIMED = {
                      "initial states replayed into the implementation",
         "design_ref": "DESIGN.md section 4 (C17)",
     },
+    "C09": {
+        "text": "Batcher.tla specifies per-epoch scheduling (any partition into train/validation, any "
+                "order, full batches but the last, reported length = yielded, same-seed restart must "
+                "replay the recorded batches, batch-mean = full-batch when bs divides the set) and TLC "
+                "checks Partition, ExactlyOnce, EpochComplete, LenMatches, Deterministic and BatchMean on "
+                "the bounded model, rejecting three wrong variants. Executions of the real SimpleBatcher "
+                "(n<=12 x bs<=14|None x 9 ratios x grid/random x shuffle, two epochs + same-seed restart) "
+                "and of Ptychography.reconstruct (hook events per batch; reset and twin runs on tiny "
+                "synthetic datasets) are validated against the spec by TLC (BatcherTrace.tla). Where the "
+                "model's BatchMean premise holds, the epoch-mean loss and gradients of the real "
+                "reconstruction are compared with the full-batch ones; same-seed loss histories must be "
+                "identical.",
+        "note": "Trusted: TLC, the hook (one event per yielded batch, emitted inside the loop before the "
+                "batch is used), the tiny synthetic fixture. Numeric comparisons: float32, rtol 2e-4 "
+                "(loss) and 2e-3 of max|grad|; loss histories compared for equality on one CPU thread.",
+        "technique": "TLA+ spec + TLC model checking; traces recorded from the code (hook + public "
+                     "iterator) validated against the spec with TLC; model-guided numeric replay",
+        "design_ref": "DESIGN.md section 4 (C09)",
+    },
 }
